@@ -75,6 +75,9 @@ type Type struct {
 	// Zero: a field-less (zero-size) provider type: no handle, no custom name, one instance.
 	// Distinct zero-size components may share one address.
 	Zero   bool      `json:"zero,omitempty"`
+	// Scalar (with Zero): the type is not a struct at all but a named scalar (`type T int32`);
+	// a pointer to it is as legal a component as a pointer to a struct.
+	Scalar bool `json:"scalar,omitempty"`
 	Points []*Point  `json:"points,omitempty"`
 	Frame  []*Frame  `json:"frame,omitempty"`
 	Config []*Conf   `json:"config,omitempty"`
